@@ -260,7 +260,16 @@ type BlockOpts struct {
 }
 
 // C04Violations is the catalogue of contextual violations Build knows.
-var C04Violations = []string{"bad-sig", "missing-input", "spent-input", "later-output", "double-in-block", "immature", "overspend", "cb-too-much", "own-coinbase", "tap-undef-hashtype", "tap-single-oor"}
+var C04Violations = []string{"bad-sig", "missing-input", "spent-input", "later-output", "double-in-block", "immature", "overspend", "cb-too-much", "own-coinbase", "tap-undef-hashtype", "tap-single-oor",
+	"value-wrap", "cb-value-wrap", "sigops-over",
+	"bad-sig", "missing-input", "spent-input", "later-output", "double-in-block", "immature", "overspend", "cb-too-much", "own-coinbase", "value-wrap", "sigops-over",
+	// open known findings: drawn less often, so that most runs get past them
+	"bip68-height", "bip68-time", "sigops-return"}
+
+// C04Boundary are VALID blocks sitting exactly on a limit.
+var C04Boundary = []string{"ok-sigops-exact", "ok-bip68-height", "ok-bip68-time"}
+
+func isBoundary(v string) bool { return len(v) > 3 && v[:3] == "ok-" }
 
 // Build creates a block on parent: valid, or violating exactly the rule named by o.Viol.
 // ok=false means the requested violation could not be constructed on this state.
@@ -424,6 +433,81 @@ func (m *Miner) Build(parent *Node, o BlockOpts) (b *Block, ok bool) {
 			fee = tot / 10
 		}
 		t := m.MakeTx(height, ins, nOut, fee, corruptIdx, corrupt)
+		if n == violAt && (o.Viol == "bip68-height" || o.Viol == "bip68-time" || o.Viol == "ok-bip68-height" || o.Viol == "ok-bip68-time") {
+			p := m.L.P
+			if p.CSVHeight == 0 || height < p.CSVHeight {
+				return nil, false
+			}
+			c := ins[0].Coin
+			if c.Height == height {
+				return nil, false
+			}
+			t.Ver = 2
+			okCase := isBoundary(o.Viol)
+			if o.Viol == "bip68-height" || o.Viol == "ok-bip68-height" {
+				seq := height - c.Height // exactly satisfied
+				if !okCase {
+					seq++
+				}
+				if seq > 0xffff {
+					return nil, false
+				}
+				t.In[0].Seq = seq
+			} else {
+				var base uint32
+				if c.Height >= 1 {
+					base = parent.Ancestor(c.Height - 1).MTP()
+				} else {
+					base = m.L.Genesis.MTP()
+				}
+				mtp := parent.MTP()
+				if mtp <= base {
+					return nil, false
+				}
+				nn := (mtp-base)/512 + 1 // first value that is NOT yet satisfied
+				if okCase {
+					nn--
+				}
+				if nn > 0xffff {
+					return nil, false
+				}
+				t.In[0].Seq = 1<<22 | nn
+			}
+			var spent []Coin
+			for _, c := range ins {
+				spent = append(spent, c.Coin)
+			}
+			m.SignAll(t, spent, -1, COk)
+			violDone = true
+		}
+		if n == violAt && o.Viol == "value-wrap" {
+			for len(t.Out) < 2 {
+				t.Out = append(t.Out, TxOut{0, m.W.Script(KP2PKH, m.R.Intn(m.W.NKeys()))})
+			}
+			var rest uint64
+			for _, x := range t.Out[2:] {
+				rest += x.Value
+			}
+			a := (tot - rest) / 3
+			switch m.R.Intn(3) {
+			case 0: // two outputs of 2^63+x: the 64-bit sum wraps
+				t.Out[0].Value = 1<<63 + a
+				t.Out[1].Value = 1<<63 + a
+			case 1: // a "negative" amount
+				t.Out[0].Value = ^uint64(0) - a
+				t.Out[1].Value = 2*a + 1
+			default: // just above the supply limit next to a wrapping partner
+				t.Out[0].Value = MaxMoney + 1
+				t.Out[1].Value = ^uint64(0) - MaxMoney + a
+			}
+			var spent []Coin
+			for _, c := range ins {
+				spent = append(spent, c.Coin)
+			}
+			m.SignAll(t, spent, -1, COk)
+			violDone = true
+			tot = 0
+		}
 		if n == violAt && o.Viol == "overspend" {
 			var outsum uint64
 			for _, x := range t.Out {
@@ -438,8 +522,6 @@ func (m *Miner) Build(parent *Node, o BlockOpts) (b *Block, ok bool) {
 			violDone = true
 			fee = 0
 			tot = 0 // contributes no fee
-			for range t.Out {
-			}
 		}
 		var outsum uint64
 		for _, x := range t.Out {
@@ -495,6 +577,49 @@ func (m *Miner) Build(parent *Node, o BlockOpts) (b *Block, ok bool) {
 			}
 		}
 	}
+	if o.Viol == "cb-value-wrap" {
+		for len(cb.Out) < 2 {
+			cb.Out = append(cb.Out, TxOut{0, m.W.Script(KP2PKH, 0)})
+		}
+		var rest uint64
+		for _, x := range cb.Out[2:] {
+			rest += x.Value
+		}
+		a := (claim - rest) / 2
+		cb.Out[0].Value = 1<<63 + a
+		cb.Out[1].Value = 1<<63 + (claim - rest - a)
+		cb.Touch()
+		violDone = true
+	}
+	if o.Viol == "sigops-over" || o.Viol == "sigops-return" || o.Viol == "ok-sigops-exact" {
+		cost := m.blockSigops(parent, append([]*Tx{cb}, txs...))
+		room := 80000 - cost
+		if room < 8 {
+			return nil, false
+		}
+		nn := room / 4
+		var scr []byte
+		switch o.Viol {
+		case "ok-sigops-exact":
+			if room%4 != 0 {
+				return nil, false
+			}
+		case "sigops-over":
+			nn++
+		case "sigops-return":
+			nn++
+			scr = append(scr, 0x6a)
+		}
+		for i := 0; i < nn; i++ {
+			scr = append(scr, 0xac)
+		}
+		cb.Out = append(cb.Out, TxOut{0, scr})
+		cb.Touch()
+		violDone = true
+	}
+	if isBoundary(o.Viol) {
+		b.Label = o.Viol
+	}
 	if !violDone {
 		return nil, false
 	}
@@ -511,4 +636,282 @@ func (m *Miner) Build(parent *Node, o BlockOpts) (b *Block, ok bool) {
 	b.H.Bits = m.L.ExpectedBits(parent, b.H.Time)
 	m.Finish(parent, b)
 	return b, true
+}
+
+// C05Violations is the catalogue of header / structure / commitment violations.
+var C05Violations = []string{"high-hash", "bits-wrong", "bits-negative", "bits-zero", "bits-overflow", "time-mtp", "time-future", "version-old",
+	"cb-script-short", "cb-script-long", "bad-cb-height", "second-coinbase", "no-coinbase", "non-final-height", "non-final-time",
+	"merkle-dup", "bad-merkle", "witness-commit-wrong", "witness-missing-commit", "witness-nonce-size", "short-block", "empty-vout", "null-prevout"}
+
+// MutateC05 turns the valid block b (child of parent) into one violating only the named rule.
+// now is the node's clock when the block will be delivered at the earliest.
+func (m *Miner) MutateC05(parent *Node, b *Block, kind string, now int64) bool {
+	p := m.L.P
+	height := parent.Height + 1
+	segwit := p.SegwitHeight != 0 && height >= p.SegwitHeight
+	b.Label = kind
+	regrind := func() {
+		b.H.Merkle, _ = b.TxMerkle()
+		b.H.Nonce = 0
+		Grind(&b.H)
+	}
+	hasCommit := func() bool {
+		for _, o := range b.Txs[0].Out {
+			if len(o.Pk) >= 38 && bytes.Equal(o.Pk[:6], commitHdr) {
+				return true
+			}
+		}
+		return false
+	}
+	recommit := func() {
+		if segwit && hasCommit() {
+			SetCommitment(b)
+		}
+	}
+	switch kind {
+	case "high-hash":
+		b.H.Nonce = 0
+		GrindAbove(&b.H)
+	case "bits-wrong":
+		b.H.Bits = []uint32{0x207ffffe, 0x1f7fffff, 0x2000ffff}[m.R.Intn(3)]
+		b.H.Nonce = 0
+		Grind(&b.H)
+	case "bits-negative":
+		b.H.Bits = 0x20800001
+	case "bits-zero":
+		b.H.Bits = 0x20000000
+	case "bits-overflow":
+		b.H.Bits = 0xff123456
+	case "time-mtp":
+		b.H.Time = parent.MTP() - uint32(m.R.Intn(2))
+		if p.Testnet {
+			b.H.Bits = m.L.ExpectedBits(parent, b.H.Time)
+		}
+		regrind()
+	case "time-future":
+		b.H.Time = uint32(now + 7201 + int64(m.R.Intn(3)))
+		b.H.Bits = m.L.ExpectedBits(parent, b.H.Time)
+		regrind()
+	case "version-old":
+		var vs []uint32
+		if height >= p.BIP34Height {
+			vs = append(vs, 1)
+		}
+		if height >= p.BIP66Height {
+			vs = append(vs, 2)
+		}
+		if height >= p.BIP65Height {
+			vs = append(vs, 3)
+		}
+		if len(vs) == 0 {
+			return false
+		}
+		b.H.Ver = vs[m.R.Intn(len(vs))]
+		regrind()
+	case "cb-script-short":
+		b.Txs[0].In[0].ScriptSig = []byte{0x51}
+		b.Txs[0].Touch()
+		recommit()
+		regrind()
+	case "cb-script-long":
+		ss := append([]byte{}, HeightScript(height)...)
+		for len(ss) < 101 {
+			ss = append(ss, 0x51)
+		}
+		b.Txs[0].In[0].ScriptSig = ss
+		b.Txs[0].Touch()
+		recommit()
+		regrind()
+	case "bad-cb-height":
+		if height < p.BIP34Height {
+			return false
+		}
+		ss := append([]byte{}, HeightScript(height+1)...)
+		ss = append(ss, 0x51, 0x51)
+		if m.R.Chance(0.3) {
+			// non-minimal push of the right height
+			hs := HeightScript(height)
+			if len(hs) > 1 {
+				ss = append([]byte{hs[0] + 1}, append(hs[1:], 0x00)...)
+				ss = append(ss, 0x51)
+			}
+		}
+		b.Txs[0].In[0].ScriptSig = ss
+		b.Txs[0].Touch()
+		recommit()
+		regrind()
+	case "second-coinbase":
+		cb2 := m.Coinbase(height, 0, 1, 0xabcdef)
+		b.Txs = append(b.Txs, cb2)
+		recommit()
+		regrind()
+	case "no-coinbase":
+		if len(b.Txs) < 2 {
+			return false
+		}
+		b.Txs = b.Txs[1:]
+		regrind()
+	case "non-final-height", "non-final-time":
+		if len(b.Txs) < 2 {
+			return false
+		}
+		t := b.Txs[1+m.R.Intn(len(b.Txs)-1)]
+		if kind == "non-final-height" {
+			t.Lock = height + uint32(m.R.Intn(2))
+		} else {
+			cutoff := b.H.Time
+			if p.CSVHeight != 0 && height >= p.CSVHeight {
+				cutoff = parent.MTP()
+			}
+			t.Lock = cutoff + uint32(m.R.Intn(2))
+		}
+		t.In[0].Seq = 0xfffffffe
+		// re-sign: look the coins up in the parent's view / earlier transactions of the block
+		view := map[OutPoint]Coin{}
+		for k, v := range parent.UTXO() {
+			view[k] = v
+		}
+		for _, x := range b.Txs {
+			id := x.ID()
+			if x == t {
+				break
+			}
+			for i, o := range x.Out {
+				view[OutPoint{id, uint32(i)}] = Coin{o.Value, o.Pk, height, false}
+			}
+		}
+		var spent []Coin
+		for _, in := range t.In {
+			c, ok := view[in.Prev]
+			if !ok {
+				return false
+			}
+			spent = append(spent, c)
+		}
+		oldID := t.ID()
+		t.Touch()
+		m.SignAll(t, spent, -1, COk)
+		// a later transaction of the block spending t's outputs would now dangle: give up then
+		for _, x := range b.Txs {
+			for _, in := range x.In {
+				if in.Prev.Hash == oldID {
+					return false
+				}
+			}
+		}
+		recommit()
+		regrind()
+	case "merkle-dup":
+		if len(b.Txs) < 2 {
+			return false
+		}
+		// [.., T] -> [.., T, T] keeps the root when the count was odd; otherwise duplicate the last pair
+		if len(b.Txs)%2 == 1 {
+			b.Txs = append(b.Txs, b.Txs[len(b.Txs)-1])
+		} else {
+			n := len(b.Txs)
+			if n%4 != 2 {
+				return false
+			}
+			b.Txs = append(b.Txs, b.Txs[n-2], b.Txs[n-1])
+		}
+		// root (and the commitment over wtxids) are deliberately left as they were
+	case "bad-merkle":
+		b.H.Merkle[m.R.Intn(32)] ^= 1 << uint(m.R.Intn(8))
+		b.H.Nonce = 0
+		Grind(&b.H)
+	case "witness-commit-wrong":
+		if !segwit || !hasCommit() {
+			return false
+		}
+		cb := b.Txs[0]
+		for i := range cb.Out {
+			if len(cb.Out[i].Pk) >= 38 && bytes.Equal(cb.Out[i].Pk[:6], commitHdr) {
+				cb.Out[i].Pk[6+m.R.Intn(32)] ^= 0x01
+			}
+		}
+		cb.Touch()
+		regrind()
+	case "witness-missing-commit":
+		if !segwit || !hasCommit() {
+			return false
+		}
+		cb := b.Txs[0]
+		var outs []TxOut
+		for _, o := range cb.Out {
+			if !(len(o.Pk) >= 38 && bytes.Equal(o.Pk[:6], commitHdr)) {
+				outs = append(outs, o)
+			}
+		}
+		cb.Out = outs
+		cb.In[0].Wit = nil
+		cb.Touch()
+		regrind()
+	case "witness-nonce-size":
+		if !segwit || !hasCommit() {
+			return false
+		}
+		cb := b.Txs[0]
+		switch m.R.Intn(3) {
+		case 0:
+			cb.In[0].Wit = [][]byte{make([]byte, 31)}
+		case 1:
+			cb.In[0].Wit = [][]byte{make([]byte, 33)}
+		default:
+			cb.In[0].Wit = [][]byte{make([]byte, 32), make([]byte, 32)}
+		}
+		cb.Touch()
+		regrind()
+	case "short-block":
+		b.RawOverride = b.H.Bytes()
+	case "empty-vout":
+		if len(b.Txs) < 2 {
+			return false
+		}
+		// a transaction without outputs (all of its input value becomes fee; the coinbase claim stays below)
+		t := b.Txs[len(b.Txs)-1]
+		t.Out = nil
+		t.Touch()
+		recommit()
+		regrind()
+	case "null-prevout":
+		if len(b.Txs) < 2 {
+			return false
+		}
+		t := b.Txs[len(b.Txs)-1]
+		t.In = append(t.In, TxIn{Prev: OutPoint{N: 0xffffffff}, Seq: 0xffffffff})
+		t.Valid = append(t.Valid, true)
+		t.Touch()
+		recommit()
+		regrind()
+	default:
+		return false
+	}
+	return true
+}
+
+// blockSigops is the BIP141 sigop cost of the given transactions on top of parent.
+func (m *Miner) blockSigops(parent *Node, txs []*Tx) int {
+	height := parent.Height + 1
+	p := m.L.P
+	segwit := p.SegwitHeight != 0 && height >= p.SegwitHeight
+	view := map[OutPoint]Coin{}
+	for k, v := range parent.UTXO() {
+		view[k] = v
+	}
+	n := 0
+	for ti, t := range txs {
+		var spent []Coin
+		if ti > 0 {
+			for _, in := range t.In {
+				spent = append(spent, view[in.Prev])
+			}
+		}
+		n += SigOpCost(t, spent, true, segwit)
+		id := t.ID()
+		for i, o := range t.Out {
+			view[OutPoint{id, uint32(i)}] = Coin{o.Value, o.Pk, height, ti == 0}
+		}
+	}
+	return n
 }
